@@ -24,7 +24,7 @@ structure Case where
   accept : Nat := 0
   horizon : Nat := 30000
   sdReady : Bool := true
-  handlers : List (Nat × BodyKind × Nat) := []     -- delay, body kind, stream gap
+  handlers : List (Nat × BodyKind × Nat × Bool) := []     -- delay, body kind, stream gap, resolves to Err
   events : List (Nat × Ev) := []
 
 def tokOfChar : Char → Option Tok
@@ -35,13 +35,15 @@ def tokOfChar : Char → Option Tok
 def toksOfString (s : String) : Option (List Tok) :=
   s.toList.mapM tokOfChar
 
-def parseHandler (p : String) : Option (Nat × BodyKind × Nat) :=
+def parseHandler (p : String) : Option (Nat × BodyKind × Nat × Bool) :=
   match p.splitOn ":" with
   | [d, b] =>
     match d.toNat?, b.toList with
-    | some d, ['e'] => some (d, .empty, 0)
-    | some d, ['s'] => some (d, .small, 0)
-    | some d, 't' :: g => (String.ofList g).toNat?.map fun g => (d, .stream, g)
+    | some d, ['e'] => some (d, .empty, 0, false)
+    | some d, ['s'] => some (d, .small, 0, false)
+    | some d, ['x'] => some (d, .empty, 0, true)
+    | some d, ['y'] => some (d, .small, 0, true)
+    | some d, 't' :: g => (String.ofList g).toNat?.map fun g => (d, .stream, g, false)
     | _, _ => none
   | _ => none
 
@@ -122,10 +124,10 @@ def lookup (k : Nat) : List (Nat × Nat) → Option Nat
   | [] => none
   | (a, b) :: r => if a = k then some b else lookup k r
 
-def handlerOf (c : Case) (rid : Nat) : Nat × BodyKind × Nat :=
+def handlerOf (c : Case) (rid : Nat) : Nat × BodyKind × Nat × Bool :=
   match c.handlers with
-  | [] => (0, .empty, 0)
-  | hs => hs.getD (min rid (hs.length - 1)) (0, .empty, 0)
+  | [] => (0, .empty, 0, false)
+  | hs => hs.getD (min rid (hs.length - 1)) (0, .empty, 0, false)
 
 def showKind : ReqKind → String
   | .k => "k" | .c => "c" | .p => "p"
@@ -176,7 +178,7 @@ def nextWake (c : Case) (w : W) (t : Nat) : Option Nat :=
        | none => none)
     | .sendPayload rid .stream 1 =>
       (match lookup rid w.bodyStart with
-       | some t0 => future t (some (t0 + (handlerOf c rid).2.2))
+       | some t0 => future t (some (t0 + (handlerOf c rid).2.2.1))
        | none => none)
     | _ => none
   optMin tm (optMin sg hd)
@@ -205,13 +207,14 @@ def mkIn (c : Case) (w : W) (now : Nat) (arr : List Tok) (eof : Bool) : In :=
     eof := eof
     sig := match c.signal with | some s => decide (s ≤ now) | none => false
     hReady := fun rid =>
-      let (delay, body, _) := handlerOf c rid
+      let (delay, body, _, _) := handlerOf c rid
       let ready := match lookup rid w.callTime with
         | some t0 => decide (t0 + delay ≤ now)
         | none => delay == 0
       if ready then some body else none
+    hErr := fun rid => (handlerOf c rid).2.2.2
     bReady := fun rid =>
-      let gap := (handlerOf c rid).2.2
+      let gap := (handlerOf c rid).2.2.1
       match lookup rid w.bodyStart with
       | some t0 => decide (t0 + gap ≤ now)
       | none => gap == 0
